@@ -13,6 +13,7 @@ import PgProofs.C05Str
 import PgProofs.C05Nested
 import PgProofs.C05Paths
 import PgProofs.C05Typed
+import PgProofs.C05Sig
 namespace Pg.C05
 
 /-! ## T-SIG: value specs can be rebuilt from what `to_json` emits -/
@@ -40,6 +41,50 @@ def rowOK (r : SigRow) : Bool :=
 required parameter that is always emitted. (F12: `Enum.default` was required and omittable.) -/
 theorem C05_sig_table : ∀ r ∈ sigTable, rowOK r = true := by decide
 
+
+/-- The same check phrased with `alookup` (what `sig_sound` consumes), plus: a key is listed once. -/
+def rowOK2 (r : SigRow) : Bool :=
+  (r.emitted.all fun (k, s) =>
+    alookup k r.ctor == some (some s) || equivDefaults.contains (r.cls, k) ||
+      (alookup k r.ctor == some none && neverOmitted.contains (r.cls, k))) &&
+  (r.emitted.all fun p => r.emitted.all fun q => p.1 != q.1 || p.2 == q.2)
+
+theorem C05_sig_table2 : ∀ r ∈ sigTable, rowOK2 r = true := by decide
+
+/-- What the table obligation buys, for every serialisable value-spec class of the current source
+and every record of constructor arguments (values abstract): `to_json_dict(exclude_default=True)`
+followed by `cls(**kwargs)` hands every argument back — the omitted ones through the constructor
+default, the always-present ones because they never equal the sentinel. (Modulo the documented
+`None ≡ []` normalisation of `Callable.args/kw`; the arguments themselves are specs / plain values,
+whose own round trip is the codec theorem / correspondence.) -/
+theorem C05_sig_roundtrip (r : SigRow) (hr : r ∈ sigTable) (args : String → String) (k s : String)
+    (hmem : (k, s) ∈ r.emitted) (hnorm : (r.cls, k) ∉ equivDefaults)
+    (hnever : (r.cls, k) ∈ neverOmitted → args k ≠ s) :
+    rebuildArg r.ctor (emitArgs args r.emitted) k = some (args k) := by
+  have h := C05_sig_table2 r hr
+  simp only [rowOK2, Bool.and_eq_true, List.all_eq_true] at h
+  have huniq : ∀ p ∈ r.emitted, p.1 = k → p.2 = s := by
+    intro p hp hk
+    have := h.2 p hp (k, s) hmem
+    simp only [Bool.or_eq_true, bne_iff_ne, ne_eq, beq_iff_eq] at this
+    rcases this with h1 | h1
+    · exact absurd hk h1
+    · exact h1
+  have hk := h.1 (k, s) hmem
+  simp only [Bool.or_eq_true, Bool.and_eq_true, beq_iff_eq, List.contains_iff_mem] at hk
+  apply sig_sound r.emitted r.ctor args k s hmem huniq
+  rcases hk with (h1 | h1) | h1
+  · exact .inl h1
+  · exact absurd h1 hnorm
+  · exact .inr (hnever h1.2)
+
+/-- F12 in this vocabulary: with `Enum.__init__(self, default, values, frozen=False)` (pinned tree)
+an Enum without default emits no `default` key and the constructor has nothing to fall back on. -/
+theorem C05_sig_F12_counterexample :
+    rebuildArg (V := String) [("default", none), ("values", none), ("frozen", some "False")]
+      (emitArgs (fun k => if k = "default" then "MISSING_VALUE" else if k = "values" then "[1, 2]" else "False")
+        [("default", "MISSING_VALUE"), ("values", "None"), ("frozen", "False")]) "default" = none := by
+  decide
 
 /-! ## Codec: object form -/
 
